@@ -60,10 +60,10 @@ TEXT = {
     level_note="Trusted: refwire.EncodeStat, mockfs listing order, the msize-forcing connection wrapper.",
  ),
  "C14": dict(
-    technique="property-based concurrency testing: rapid-generated concurrent histories with a harness-owned schedule (gates at every file-system call), overlap monitors in the mock (entries, open files, directory iterators), structural deadlock detector, per-fid binding-conservation law over the results, Go race detector",
+    technique="property-based concurrency testing: rapid-generated concurrent histories with a harness-owned schedule (gates at every file-system call), overlap monitors in the mock (entries, open files, directory iterators), structural deadlock detector, per-fid binding-conservation law over the results, linearizability of the recorded invocation/return history against a pure sequential specification (porcupine as the history checker), Go race detector",
     design_ref="DESIGN.md section 4, C14",
-    level_text="Generated concurrent histories x generated release orders of parked file-system calls; violations are observed (overlapping calls, goroutines that never return, fids left locked or half-bound, results that no sequential order can explain by the count of binds and unbinds per fid, race reports), never inferred.",
-    level_note="Trusted: mockfs in-call counters, the settle heuristic of the gate controller (affects which interleavings are explored, never the verdict), the race detector. Full linearizability of every result is not checked (no model-based history checker was built); the conservation law is a necessary condition only.",
+    level_text="Generated concurrent histories x generated release orders of parked file-system calls; violations are observed (overlapping calls, goroutines that never return, fids left locked or half-bound, results that no sequential order consistent with real time can explain - by the count of binds and unbinds per fid, and by a porcupine search over the recorded history against the sequential specification -, race reports), never inferred.",
+    level_note="Trusted: mockfs in-call counters, the settle heuristic of the gate controller (affects which interleavings are explored, never the verdict), the race detector. Trusted too: the pure sequential specification in sessconc/linear.go (a re-statement of the C08 reference model and of mockfs's tree semantics) and porcupine v1.3.0; outcomes the property text leaves open are accepted whatever they are, directory-read contents are C17's.",
  ),
  "C06": dict(
     technique="property-based testing (rapid) of ServeConn with a scripted Handler (parks every invocation) and a scripted raw client speaking an independent codec; model = multiset of owed replies",
